@@ -646,3 +646,36 @@ Section MacrosPar.
     rewrite firstn_len_app. unfold mk. f_equal. lia.
   Qed.
 End MacrosPar.
+
+(** * Text characters: no specials sequence matches at the character *)
+Lemma char_ok_facts cx ex c rest : char_ok cx ex c rest = true ->
+  plain_start c = true /\ mem_c c ex = false /\ test_specials (map fst (cx_specials cx)) (c :: rest) None = None.
+Proof.
+  unfold char_ok. intros H. apply andb_true_iff in H. destruct H as [H TS].
+  apply andb_true_iff in H. destruct H as [PS EX]. apply negb_true_iff in EX.
+  destruct (test_specials _ _ _); [discriminate|]. tauto.
+Qed.
+
+Lemma inert_char_ok cx c rest : inert cx c = true -> char_ok cx [] c rest = true.
+Proof.
+  intros H. destruct (inert_facts cx c H) as (SP & E92 & E36 & E37 & E123 & E125 & TS).
+  unfold char_ok, plain_start. rewrite SP. cbn [negb mem_c existsb].
+  rewrite E92, E36, E37, E123, E125. cbn [orb negb andb]. rewrite (test_specials_none _ c rest TS). reflexivity.
+Qed.
+
+Section TextChars.
+  Variables (cx : context) (ps : pstate).
+  Hypothesis V : std_view cx ps.
+
+  Lemma dispatch_char2 s p pre c r : plain_start c = true ->
+    test_specials (map fst (cx_specials cx)) (c :: r) None = None ->
+    dispatch ps s (c :: r) p pre c = TokOk (mk TkChar [c] p (S p) pre []).
+  Proof.
+    intros PS TS. destruct (plain_start_facts c PS) as (_ & E92 & E36 & E37 & E123 & E125).
+    unfold dispatch.
+    rewrite (stage_math_none cx ps V), (stage_escape_none cx ps V), (stage_comment_none cx ps V),
+      (stage_group_none cx ps V) by assumption.
+    cbn [orelse]. unfold stage_specials. rewrite (sv_specials _ _ V), (sv_enspecials _ _ V), TS.
+    cbn [orelse]. unfold char_token. rewrite (sv_forbidden _ _ V). reflexivity.
+  Qed.
+End TextChars.
